@@ -158,6 +158,22 @@ def isBad : Val → Bool
 structure St where
   mgr : Manager Logged Args Val Mut := {}
   steps : Steps := ⟨0, fun _ => 0⟩
+  /-- pipelines whose source is another pipeline (`source = builder.value.get_value(other)`) -/
+  refs : List (String × String) := []
+
+/-- `Pipeline.__call__` where the source may be another `Pipeline` object: Python evaluates the inner
+pipeline (same arguments, post-processor NOT skipped) when the source is invoked; an inner pipeline
+without a source raises there, before any modifier of the outer one has run. `fuel` bounds the depth. -/
+def callPipe (s : St) : Nat → String → Args → Bool → Except Err (Logged Val)
+  | 0, _, _, _ => .error .noSource
+  | fuel + 1, name, args, skip =>
+    let p := s.mgr.getValue name
+    match s.refs.lookup name, p.cfg with
+    | some inner, some c =>
+      match callPipe s fuel inner args false with
+      | .error e => .error e
+      | .ok run => ({ p with cfg := some { c with source := fun _ => run } }).call args skip
+    | _, _ => p.call args skip
 
 def nsToSec (ns : Int) : Rat := (ns : Rat) / 1000000000
 
@@ -183,6 +199,15 @@ def step (s : St) : List String → St × String
       else if post = "union" then some (some unionD)
       else if post.startsWith "c:" then (eff? (post.drop 2).toString).map fun e => some fun v => probe "post" e ⟨none, 0⟩ (some v)
       else none
+    if eff.startsWith "pipe:" then
+      match combiner?, post? with
+      | some c, some p =>
+        match s.mgr.registerProducer pipe { source := fun _ => pure .bad, combiner := c, post := p } with
+        | .ok g => ({ s with mgr := g, refs := s.refs ++ [(pipe, (eff.drop 5).toString)] }, "ok")
+        | .error .dupSource => (s, "err dup")
+        | .error .noSource => (s, "err other")
+      | _, _ => (s, "bad-op")
+    else
     match eff? eff, combiner?, post? with
     | some e, some c, some p =>
       match s.mgr.registerProducer pipe { source := fun a => probe "src" e a none, combiner := c, post := p } with
@@ -200,7 +225,7 @@ def step (s : St) : List String → St × String
     let idx? : Option (Option (List Nat)) := if idx = "none" then some none else (natList idx).map some
     match idx?, rat? a, bool? skip with
     | some idx, some a, some skip =>
-      match (s.mgr.getValue pipe).call ⟨idx, a⟩ skip with
+      match callPipe s 8 pipe ⟨idx, a⟩ skip with
       | .error .noSource => (s, "err nosource")
       | .error .dupSource => (s, "err other")
       | .ok run =>
